@@ -218,9 +218,23 @@ type writeCase struct {
 	dir   string // abstract absolute, clean
 	start absFS
 	a     *txtar.Archive
+	cli   bool // serialise with txtar.Format and extract with the built txtar-x binary instead of calling Write
+}
+
+func (c writeCase) text() []byte { return txtar.Format(c.a) }
+
+// archive as Write sees it: the case's own, or what txtar-x parses from its text
+func (c writeCase) seen() *txtar.Archive {
+	if c.cli {
+		return txtar.Parse(c.text())
+	}
+	return c.a
 }
 
 func (c writeCase) line() string {
+	if c.cli {
+		return "x " + corr.Hx([]byte(c.dir)) + " " + c.start.enc() + " " + corr.Hx(c.text())
+	}
 	return "write " + corr.Hx([]byte(c.dir)) + " " + c.start.enc() + " " + encArchive(c.a)
 }
 
@@ -230,7 +244,7 @@ type writeOutcome struct {
 	setupErr      error
 }
 
-func runWriteImpl(sandbox string, c writeCase) (o writeOutcome) {
+func runWriteImpl(sandbox string, c writeCase, binX string) (o writeOutcome) {
 	defer os.RemoveAll(sandbox)
 	if err := os.Mkdir(sandbox, 0o777); err != nil {
 		o.setupErr = err
@@ -245,8 +259,17 @@ func runWriteImpl(sandbox string, c writeCase) (o writeOutcome) {
 		o.setupErr = err
 		return
 	}
-	werr := txtar.Write(c.a, filepath.Join(sandbox, filepath.FromSlash(c.dir)))
-	o.err = errClass(werr)
+	target := filepath.Join(sandbox, filepath.FromSlash(c.dir))
+	if c.cli {
+		_, xerr, xexit, rerr := runCmd(os.TempDir(), c.text(), binX, "-C", target)
+		if rerr != nil {
+			o.setupErr = rerr
+			return
+		}
+		o.err = errClassMsg(xexit, xerr)
+	} else {
+		o.err = errClass(txtar.Write(c.a, target))
+	}
 	if o.after, err = snapshot(sandbox); err != nil {
 		o.setupErr = err
 	}
@@ -347,7 +370,8 @@ func writeOracle(res *corr.Result, c writeCase, o writeOutcome) {
 		}
 	}
 	esc := false
-	for _, f := range c.a.Files {
+	seenA := c.seen()
+	for _, f := range seenA.Files {
 		if escapesIndep(f.Name) {
 			esc = true
 		}
@@ -356,7 +380,7 @@ func writeOracle(res *corr.Result, c writeCase, o writeOutcome) {
 		res.Violate("C15", in, "an entry name is absolute or climbs out through '..' but Write returned nil", "no-error-for-escaping-name")
 	}
 	if o.err == "nil" {
-		for _, f := range c.a.Files {
+		for _, f := range seenA.Files {
 			p := resolveIndep(c.dir, f.Name)
 			n, ok := o.after[p]
 			if !ok || n.dir || !bytes.Equal(n.data, f.Data) {
@@ -446,6 +470,73 @@ func randName(r *rand.Rand) string {
 		}
 	}
 	return strings.Join(segs, "/")
+}
+
+var wideSegs = []string{"", ".", "..", "a", "b c", "...", "..a", "a.", ".a", "ü", "a\\b", " ", "c", "dir", "parent", "x.txt", "a..", "..."}
+
+// randWriteArchiveWide: names over a wider segment alphabet, up to 6 segments, sometimes absolute.
+func randWriteArchiveWide(r *rand.Rand) *txtar.Archive {
+	a := &txtar.Archive{}
+	for i, n := 0, 1+r.Intn(4); i < n; i++ {
+		segs := make([]string, 1+r.Intn(6))
+		for j := range segs {
+			segs[j] = wideSegs[r.Intn(len(wideSegs))]
+		}
+		name := strings.Join(segs, "/")
+		if r.Intn(12) == 0 {
+			name = "/" + name
+		}
+		a.Files = append(a.Files, txtar.File{Name: name, Data: []byte(dataPool[r.Intn(len(dataPool))])})
+	}
+	return a
+}
+
+// randStartState: decoys plus a random population of dir (files and directories over the segment alphabet),
+// dir at a random depth and possibly missing together with some of its ancestors.
+func randStartState(r *rand.Rand) (string, absFS) {
+	_, fs := startState(3)
+	chain := []string{"parent", "m", "n", "dir"}[:]
+	depth := 1 + r.Intn(4)
+	comps := append([]string{}, chain[:depth-1]...)
+	comps = append(comps, "dir")
+	if depth == 1 {
+		comps = []string{"dir"}
+	}
+	dir := "/" + strings.Join(comps, "/")
+	exists := r.Intn(3) != 0
+	if exists {
+		p := ""
+		for _, c := range comps {
+			p += "/" + c
+			fs[p] = fsNode{dir: true}
+		}
+		names := []string{"a", "b c", "c", "d", "..a", "a."}
+		for i, n := 0, r.Intn(5); i < n; i++ {
+			q := dir
+			for j, d := 0, 1+r.Intn(3); j < d; j++ {
+				q += "/" + names[r.Intn(len(names))]
+				if _, taken := fs[q]; taken {
+					if !fs[q].dir {
+						break
+					}
+					continue
+				}
+				if j == d-1 && r.Intn(2) == 0 {
+					fs[q] = fsNode{data: []byte("old " + q + "\n")}
+				} else {
+					fs[q] = fsNode{dir: true}
+				}
+			}
+		}
+	} else if r.Intn(2) == 0 && depth > 1 {
+		// an ancestor exists, the rest is missing
+		p := ""
+		for _, c := range comps[:1+r.Intn(depth-1)] {
+			p += "/" + c
+			fs[p] = fsNode{dir: true}
+		}
+	}
+	return dir, fs
 }
 
 func randWriteArchive(r *rand.Rand) *txtar.Archive {
@@ -673,7 +764,8 @@ func runCmd(cwd string, stdin []byte, bin string, args ...string) (stdout []byte
 
 // runRTImpl: sandbox/in = the tree, sandbox/x = the extraction root (the model's "/"), out = /out.
 // variant bits: 1 = txtar-c gets a relative unclean dir ("./in/") with cwd=sandbox; 2 = txtar-c gets "." with cwd=in;
-// 4 = out does not exist before txtar-x; 8 = txtar-x runs with cwd=out and the default -C; 16 = archive passed as a file argument.
+// 4 = out does not exist before txtar-x; 8 = txtar-x runs with cwd=out and the default -C; 16 = archive passed as a file argument;
+// 32 = out already holds files and directories that may be in the way.
 func runRTImpl(sandbox, binC, binX string, c rtCase) (o rtOutcome) {
 	defer os.RemoveAll(sandbox)
 	in, x := filepath.Join(sandbox, "in"), filepath.Join(sandbox, "x")
@@ -716,6 +808,24 @@ func runRTImpl(sandbox, binC, binX string, c rtCase) (o rtOutcome) {
 		if err := os.Mkdir(out, 0o777); err != nil {
 			o.setupErr = err
 			return
+		}
+	}
+	if c.variant&32 != 0 && !outMissing {
+		// the target is not clear: things are in the way (correspondence only, the round-trip oracle needs a clear target)
+		for _, e := range []struct {
+			p string
+			d bool
+		}{{"a", false}, {"sub", true}, {"sub/x", false}, {"d", false}, {"c.txt", true}} {
+			var err error
+			if e.d {
+				err = os.Mkdir(filepath.Join(out, e.p), 0o777)
+			} else {
+				err = os.WriteFile(filepath.Join(out, e.p), []byte("in the way\n"), 0o666)
+			}
+			if err != nil {
+				o.setupErr = err
+				return
+			}
 		}
 	}
 	if o.xStart, err = snapshot(x); err != nil {
@@ -821,6 +931,10 @@ func archivedIndep(c rtCase) (files []archived, namesOK bool) {
 
 func rtOracle(res *corr.Result, c rtCase, o rtOutcome) (checked bool) {
 	files, namesOK := archivedIndep(c)
+	if c.variant&32 != 0 {
+		res.Distribution["rt:target-not-clear(oracle skipped)"]++
+		return false
+	}
 	if !namesOK {
 		res.Distribution["rt:names-not-representable(oracle skipped)"]++
 		return false
@@ -916,7 +1030,17 @@ var regressionNames = []string{"..", "../", "c/../..", "", ".", "a/..", "a/../..
 func runFsx(tier string, seed int64, model string, replay string) *corr.Result {
 	res := corr.NewResult("fsx", tier, seed)
 	r := rand.New(rand.NewSource(seed))
-	tmp, err := os.MkdirTemp("", "giv-fsx-")
+	// sandboxes live on a memory file system when there is one: tens of thousands of tiny create/stat/remove
+	// operations are much cheaper there and do not compete with other checks for the disk
+	base := ""
+	if st, e := os.Stat("/dev/shm"); e == nil && st.IsDir() {
+		if f, e := os.CreateTemp("/dev/shm", "giv-fsx-probe-"); e == nil {
+			f.Close()
+			os.Remove(f.Name())
+			base = "/dev/shm"
+		}
+	}
+	tmp, err := os.MkdirTemp(base, "giv-fsx-")
 	if err != nil {
 		res.Observations = append(res.Observations, "cannot create temp dir: "+err.Error())
 		res.Disagree("<setup>", err.Error(), "")
@@ -941,7 +1065,15 @@ func runFsx(tier string, seed int64, model string, replay string) *corr.Result {
 				res.Disagree(replay, "unparsable replay case", "")
 				return res
 			}
-			wcases = append(wcases, writeCase{string(unhx(f[1])), fs, a})
+			wcases = append(wcases, writeCase{dir: string(unhx(f[1])), start: fs, a: a})
+		case len(f) == 4 && f[0] == "x":
+			fs, e1 := decFS(f[2])
+			if e1 != nil {
+				res.Disagree(replay, "unparsable replay case", "")
+				return res
+			}
+			// the text is replayed as is: wrap it in an archive that formats to it when possible
+			wcases = append(wcases, writeCase{dir: string(unhx(f[1])), start: fs, a: txtar.Parse(unhx(f[3])), cli: true})
 		case len(f) == 4 && f[0] == "rt" && len(f[1]) == 2:
 			t, e := decTree(f[3])
 			var v int
@@ -998,14 +1130,21 @@ func runFsx(tier string, seed int64, model string, replay string) *corr.Result {
 		// ---- Write: regression corpus × every start state
 		one := func(name string, st int) writeCase {
 			dir, fs := startState(st)
-			return writeCase{dir, fs, &txtar.Archive{Files: []txtar.File{{Name: name, Data: []byte("new " + name + "\n")}}}}
+			return writeCase{dir: dir, start: fs, a: &txtar.Archive{Files: []txtar.File{{Name: name, Data: []byte("new " + name + "\n")}}}}
 		}
 		for _, n := range regressionNames {
 			for st := 0; st < nStartStates; st++ {
 				wcases = append(wcases, one(n, st))
 				// followed by a harmless entry: what was created before an error must stay / the error must come from the first
 				dir, fs := startState(st)
-				wcases = append(wcases, writeCase{dir, fs, &txtar.Archive{Files: []txtar.File{{Name: "ok", Data: []byte("ok\n")}, {Name: n, Data: []byte("hello\n")}, {Name: "x", Data: []byte("x\n")}}}})
+				three := &txtar.Archive{Files: []txtar.File{{Name: "ok", Data: []byte("ok\n")}, {Name: n, Data: []byte("hello\n")}, {Name: "x", Data: []byte("x\n")}}}
+				wcases = append(wcases, writeCase{dir: dir, start: fs, a: three})
+				// and through the txtar-x binary (names that survive Format/Parse)
+				if n != "" && strings.TrimSpace(n) == n {
+					c1 := one(n, st)
+					c1.cli = true
+					wcases = append(wcases, c1, writeCase{dir: dir, start: fs, a: three, cli: true})
+				}
 			}
 		}
 		// exhaustive single-entry archives: up to 6 segments against "dir with pre-existing entries" (state 1),
@@ -1035,8 +1174,43 @@ func runFsx(tier string, seed int64, model string, replay string) *corr.Result {
 		}
 		for i := 0; i < nmulti; i++ {
 			dir, fs := startState(r.Intn(nStartStates))
-			wcases = append(wcases, writeCase{dir, fs, randWriteArchive(r)})
+			if i%3 == 0 {
+				dir, fs = randStartState(r)
+			}
+			a := randWriteArchive(r)
+			if i%4 == 1 {
+				a = randWriteArchiveWide(r)
+			}
+			cli := i%10 == 7
+			if cli {
+				for _, f := range a.Files {
+					if f.Name == "" || strings.TrimSpace(f.Name) != f.Name || strings.Contains(f.Name, "\n") {
+						cli = false
+					}
+					if len(f.Data) > 0 && (f.Data[len(f.Data)-1] != '\n' || hasMarkerLineIndep(f.Data)) {
+						cli = false // would not survive Format/Parse unchanged; keep the case on the Write side
+					}
+				}
+			}
+			wcases = append(wcases, writeCase{dir: dir, start: fs, a: a, cli: cli})
 		}
+		// exhaustive two-entry archives over short names (duplicates, "a" then "a/b", "a/b" then "a", escapes second …)
+		pairSeg, pairStates := 2, []int{0, 1, 3}
+		if thorough {
+			pairSeg, pairStates = 3, []int{1, 4}
+		}
+		var shortNames []string
+		enumNames(pairSeg, func(n string) { shortNames = append(shortNames, n) })
+		for _, st := range pairStates {
+			for _, n1 := range shortNames {
+				for _, n2 := range shortNames {
+					dir, fs := startState(st)
+					wcases = append(wcases, writeCase{dir: dir, start: fs, a: &txtar.Archive{Files: []txtar.File{{Name: n1, Data: []byte("1\n")}, {Name: n2, Data: []byte("2\n")}}}})
+				}
+			}
+		}
+		res.Extra["exhaustive_spaces"] = append(res.Extra["exhaustive_spaces"].([]string),
+			fmt.Sprintf("txtar.Write, two-entry archives: all pairs of names of 1..%d segments (%d names) against start states %v", pairSeg, len(shortNames), pairStates))
 		// ---- round trip
 		nrt := 400
 		if thorough {
@@ -1074,23 +1248,26 @@ func runFsx(tier string, seed int64, model string, replay string) *corr.Result {
 			if r.Intn(3) == 0 {
 				variant |= 16
 			}
+			if r.Intn(8) == 0 {
+				variant |= 32
+			}
 			rcases = append(rcases, rtCase{r.Intn(2) == 0, r.Intn(3) != 0, variant, t})
 		}
 	}
 
 	// ---------------------------------------------------------------- implementation runs
+	binC, binX, err := buildTools(tmp)
+	if err != nil {
+		res.Observations = append(res.Observations, err.Error())
+		res.Disagree("<build txtar-c/txtar-x>", err.Error(), "")
+		return res
+	}
 	wout := make([]writeOutcome, len(wcases))
 	parallel(len(wcases), func(i, k int) {
-		wout[i] = runWriteImpl(filepath.Join(tmp, fmt.Sprintf("w%d-%d", k, i)), wcases[i])
+		wout[i] = runWriteImpl(filepath.Join(tmp, fmt.Sprintf("w%d-%d", k, i)), wcases[i], binX)
 	})
 	rout := make([]rtOutcome, len(rcases))
 	if len(rcases) > 0 {
-		binC, binX, err := buildTools(tmp)
-		if err != nil {
-			res.Observations = append(res.Observations, err.Error())
-			res.Disagree("<build txtar-c/txtar-x>", err.Error(), "")
-			return res
-		}
 		parallel(len(rcases), func(i, k int) {
 			rout[i] = runRTImpl(filepath.Join(tmp, fmt.Sprintf("r%d-%d", k, i)), binC, binX, rcases[i])
 		})
@@ -1125,6 +1302,7 @@ func runFsx(tier string, seed int64, model string, replay string) *corr.Result {
 	nontrivial := map[string]bool{}
 	for i, s := range cleanIn {
 		impl := corr.Hx([]byte(filepath.Clean(s)))
+		impl = impl + " " + impl // the driver prints the component-stack model and the byte-loop model
 		if impl != mo[i] {
 			res.Disagree(lines[i], impl, mo[i])
 		}
@@ -1153,7 +1331,10 @@ func runFsx(tier string, seed int64, model string, replay string) *corr.Result {
 		writeOracle(res, c, o)
 		res.Distribution["write:err="+strings.SplitN(o.err, ":", 2)[0]]++
 		special := false
-		for _, f := range c.a.Files {
+		if c.cli {
+			res.Distribution["write:via-txtar-x-binary"]++
+		}
+		for _, f := range c.seen().Files {
 			if filepath.Clean(f.Name) != f.Name || strings.HasPrefix(f.Name, "/") || strings.HasPrefix(f.Name, "..") {
 				special = true
 			}
